@@ -193,6 +193,7 @@ make_error_input pair_distance pair_score positive_negative_pairs predict
 preprocess_points preprocess_tuples score score_pairs set_threshold transform
 validate_vector vector_norm wrap_pairs _check_dimension _select_targets
 _generate_bases_dist_diff _to_index_points check_collapsed_pairs
+_grad_projection _fS1
 """.split())
 
 
